@@ -2,6 +2,7 @@ import OcppModel.DriverContainers
 import OcppModel.DriverDateTime
 import OcppModel.DriverDisp
 import OcppModel.DriverOcppJ
+import OcppModel.DriverWs
 
 /-! Line-protocol oracle: `driver <suite>` reads one operation per line on stdin and prints the model's
     observable output for each. -/
@@ -62,5 +63,6 @@ def main (args : List String) : IO UInt32 := do
   | ["sdmon"] => loopGen stdin stdout Ocpp.Drv.stepSMon (some {}); pure 0
   | ["c03"] => loopPure stdin stdout Ocpp.Drv.stepC03; pure 0
   | ["c06"] => loopPure stdin stdout Ocpp.Drv.stepC06; pure 0
+  | ["wsadmit"] => loopPure stdin stdout Ocpp.Drv.stepWsAdmit; pure 0
   | ["datetime"] => loopPure stdin stdout Ocpp.Drv.stepDateTime; pure 0
   | _ => IO.eprintln "usage: driver <suite>"; pure 2
